@@ -61,7 +61,8 @@ fn setup(zero_init: bool) -> World {
 
 /// all denom lists of length 1..=maxlen over {x,y}
 fn shapes(maxlen: usize) -> Vec<Vec<usize>> {
-    let mut out = vec![];
+    // the empty coin list is a shape too ("carries no positive amount")
+    let mut out = vec![vec![]];
     for len in 1..=maxlen {
         for bits in 0..(1usize << len) {
             out.push((0..len).map(|i| (bits >> i) & 1).collect());
@@ -189,7 +190,7 @@ pub fn scenarios(tier: &str) -> Vec<Scenario> {
     let all = [Kind::Send, Kind::Burn, Kind::Mint, Kind::ContractSend];
     let mut v = vec![];
     let full = shapes(3);
-    let small: Vec<Vec<usize>> = vec![vec![0], vec![0, 1], vec![0, 0]];
+    let small: Vec<Vec<usize>> = vec![vec![0], vec![0, 1], vec![0, 0], vec![]];
     {
         let full = full.clone();
         v.push(Scenario::new("one_step_all_shapes", &["some_ok", "some_err"], move || {
@@ -204,7 +205,7 @@ pub fn scenarios(tier: &str) -> Vec<Scenario> {
             // positive initial balances: zero/absent entries are produced by the first step
             let mut w = setup(false);
             step(&mut w, 0, &all, &small[..2].to_vec());
-            step(&mut w, 1, &all, &small);
+            step(&mut w, 1, &all, &small[..3].to_vec());
         }));
     }
     if tier == "thorough" {
